@@ -8,13 +8,15 @@ pub mod hist;
 pub mod c03;
 pub mod c04;
 pub mod c06;
+pub mod c07;
 pub mod c08;
 pub mod c09;
+pub mod c10;
 pub mod c11;
 
 use crate::engine::{json, Case, Run};
 
-pub const ALL: [&str; 9] = ["C01", "C02", "C03", "C04", "C05", "C06", "C08", "C09", "C11"];
+pub const ALL: [&str; 11] = ["C01", "C02", "C03", "C04", "C05", "C06", "C07", "C08", "C09", "C10", "C11"];
 
 pub fn known(id: &str) -> bool {
     ALL.contains(&id)
@@ -28,8 +30,10 @@ pub fn run(run: &Run) {
         "C04" => c04::run(run),
         "C05" => c04::run_c05(run),
         "C06" => c06::run(run),
+        "C07" => c07::run(run),
         "C08" => c08::run(run),
         "C09" => c09::run(run),
+        "C10" => c10::run(run),
         "C11" => c11::run(run),
         _ => unreachable!(),
     }
@@ -44,8 +48,10 @@ pub fn replay_case(prop: &str, case: &Case) -> Result<Result<(), (String, String
         "C04" => c04::replay(case),
         "C05" => c04::replay_c05(case),
         "C06" => c06::replay(case),
+        "C07" => c07::replay(case),
         "C08" => c08::replay(case),
         "C09" => c09::replay(case),
+        "C10" => c10::replay(case),
         "C11" => c11::replay(case),
         _ => Err(format!("unknown property {}", prop)),
     }
